@@ -1,3 +1,4 @@
+pub mod bcast;
 pub mod net;
 pub mod pq;
 pub mod queue;
